@@ -59,7 +59,7 @@ ASSUMPTIONS = [
     "(60 s ceiling as hang guard only)",
     "exceptions raised by the generator are compared by class only (content is C07's business); CommunicationError subclasses are not used (open C07 finding)",
 ]
-BUDGET_S = {"quick": 30, "thorough": 780}      # running out ends the search early (evidence: budget_exhausted), never a verdict
+BUDGET_S = {"quick": 30, "thorough": 600}      # running out ends the search early (evidence: budget_exhausted), never a verdict
 
 CEILING = 60.0          # seconds; normal latency is below a millisecond - this only guards against a hang
 CLOSE_CEILING = 20.0    # wait for a oneway close_stream to have run on the server (normally well below a millisecond)
@@ -727,7 +727,7 @@ def run(ctx):
     try:
         strategy = case_strategy(max_ops=25, max_items=6 if ctx.tier == "quick" or sh.get("part", 0) % 2 == 0 else 30)
         strategy = strategy.map(lambda c: dict(c, servertype=servertype, serializer=serializer))
-        ctx.search(strategy, run_case, ctx.n(500, 25000),
+        ctx.search(strategy, run_case, ctx.n(500, 7000),
                    nontrivial=lambda c: _LAST["nontrivial"], labels=lambda c: _LAST["labels"],
                    name="streams-%s-%s-%s" % (servertype, serializer, sh.get("part", 0)), max_rounds=3, shrink_budget_s=ctx.n(25, 120))
     finally:
